@@ -290,6 +290,10 @@ pub fn run(tier: Tier, seed: u64, findings: &Findings) -> i32 {
             }
         }
     }
+    if tier == Tier::Quick {
+        // one flat template past every three-letter reserved word (the property's size bound is >= 200k nodes)
+        ramps.push(Case { input: Input::SizeRamp { n: 210_000, nested: false, with_binding: false }, path: 0, dev: false, extra: 0 });
+    }
     report.merge(engine::run_explicit(&check, &cfg, ramps, 1, 8, findings));
     // every operator-pair / adjacency-triple text of C03's enumeration, as artefact-validity input
     let texts = super::c03::pair_texts();
